@@ -31,3 +31,60 @@ func VPQuantize(hires bool, f float32) float32 {
 	e := &Encoder{highResolutionCoordinates: hires}
 	return e.quantize(f)
 }
+
+// VPEnc is the complete private state of an Encoder (for one-step harnesses
+// that start from an arbitrary state).
+type VPEnc struct {
+	Mode     uint8
+	Err      error
+	DrawOp   byte
+	DrawArgs []float32
+	CSel     uint8
+	NSel     uint8
+	LOD0     float32
+	LOD1     float32
+	HiRes    bool // exported field
+	HiResCur bool // private copy taken at StartPath
+	Buf      []byte
+	AltBuf   []byte
+}
+
+func (e *Encoder) VPSet(s *VPEnc) {
+	e.mode = mode(s.Mode)
+	e.err = s.Err
+	e.drawOp = s.DrawOp
+	e.drawArgs = s.DrawArgs
+	e.cSel, e.nSel = s.CSel, s.NSel
+	e.lod0, e.lod1 = s.LOD0, s.LOD1
+	e.HighResolutionCoordinates = s.HiRes
+	e.highResolutionCoordinates = s.HiResCur
+	e.buf = s.Buf
+	e.altBuf = s.AltBuf
+}
+
+func (e *Encoder) VPGet() VPEnc {
+	return VPEnc{Mode: uint8(e.mode), Err: e.err, DrawOp: e.drawOp, DrawArgs: e.drawArgs, CSel: e.cSel, NSel: e.nSel,
+		LOD0: e.lod0, LOD1: e.lod1, HiRes: e.HighResolutionCoordinates, HiResCur: e.highResolutionCoordinates,
+		Buf: e.buf, AltBuf: e.altBuf}
+}
+
+// VPErr returns one of the four protocol errors.
+func VPErr(i int) error {
+	switch i {
+	case 0:
+		return errDrawingOpsUsedInStylingMode
+	case 1:
+		return errInvalidSelectorAdjustment
+	case 2:
+		return errInvalidIncrementingAdjustment
+	}
+	return errStylingOpsUsedInDrawingMode
+}
+
+// VPNArgs is the operand count the encoder associates with a drawing verb (-1: not a verb).
+func VPNArgs(op byte) int {
+	if op == 0 || (drawOps[op].opcodeBase == 0 && op != 'L') {
+		return -1
+	}
+	return int(drawOps[op].nArgs)
+}
